@@ -226,6 +226,17 @@ func goValues(arg circuit.IOArg, y *big.Int) (vals []interface{}, ok bool) {
 					b[i] |= byte(field.Bit(i*8+k)) << k
 				}
 			}
+			if ShortArrays {
+				// the application passes only the elements it has: a slice without the array's trailing
+				// zero elements, nil for an array of zeros (the rest of a fixed-size array stays zero)
+				for len(b) > 0 && b[len(b)-1] == 0 {
+					b = b[:len(b)-1]
+				}
+				if len(b) == 0 {
+					vals = append(vals, nil)
+					break
+				}
+			}
 			vals = append(vals, b)
 		default:
 			return nil, false
@@ -382,6 +393,10 @@ func (s *otSpy) Send(wires []ot.Wire) error {
 // UseValues is set per run by the C05 world: the evaluator passes its input as Go values
 // (inputValues) when the argument has a Go form.
 var UseValues bool
+
+// ShortArrays (per run, with UseValues): array members are passed without their trailing zero
+// elements.
+var ShortArrays bool
 
 // Verbose is set per run by the worlds: the verbose argument of StreamEvaluator and the Verbose
 // and Diagnostics parameters of the streaming compiler (reports, never results).
@@ -637,6 +652,7 @@ func (w *c05) Run(t *rt.Tape, trace bool) *core.Result {
 		}
 	}
 	UseValues = t.Choose(rt.SGen, 3) == 0
+	ShortArrays = t.Choose(rt.SGen, 2) == 0
 	Verbose = t.Choose(rt.SGen, 5) == 0
 	if Verbose {
 		res.Reach["option.verbose"]++
